@@ -1,6 +1,6 @@
 #!/bin/bash
-# Offline setup: generate overlays from /repo's current tree, build the checker binaries and warm
-# the Go build cache (all under /verif/.build). Safe to re-run.
+# Offline setup: generate overlays from /repo's current tree, build one checker binary per
+# property (mc/cmd/cNN) and warm the Go build cache (all under /verif/.build). Safe to re-run.
 set -eu
 cd "$(dirname "$0")"
 . ./env.sh
@@ -8,8 +8,17 @@ B="$VERIF_ROOT/.build"
 (cd mc/cmd/ovgen && $GO build -o "$B/bin/ovgen" .)
 cmp -s "$REPO/go.sum" mc/go.sum || cat "$REPO/go.sum" mc/go.sum.extra 2>/dev/null > mc/go.sum
 "$B/bin/ovgen" -repo "$REPO" -verif "$VERIF_ROOT" -out "$B"
-(cd mc && $GO build -tags verif -overlay "$B/overlay.json" -o "$B/bin/mc" ./cmd/mc)
-if [ -d mc/cmd/mcs ]; then
-  (cd mc && $GO build -tags verif -overlay "$B/overlay-sched.json" -o "$B/bin/mcs" ./cmd/mcs)
+cd mc
+# compile shared packages once per overlay, then link the per-property binaries in parallel
+plain=(); sched=()
+for d in cmd/c[0-9]*; do
+  if [ -f "$d/SCHED" ]; then sched+=("$d"); else plain+=("$d"); fi
+done
+fail=0
+if [ ${#plain[@]} -gt 0 ]; then
+  $GO build -tags verif -overlay "$B/overlay.json" -o "$B/bin/" $(printf './%s ' "${plain[@]}") || fail=1
 fi
-echo "setup ok"
+if [ ${#sched[@]} -gt 0 ]; then
+  $GO build -tags verif -overlay "$B/overlay-sched.json" -o "$B/bin/" $(printf './%s ' "${sched[@]}") || fail=1
+fi
+if [ $fail = 0 ]; then echo "setup ok"; else echo "setup: some binaries failed to build" >&2; exit 1; fi
